@@ -5,6 +5,11 @@ for l in open('/verif/properties.jsonl'):
     p=json.loads(l)
     if p['id']==pid: break
 wt=f"/tmp/wt/{pid}_{n}"
+import os
+ideas=json.load(open("/verif/tools/first_round_ideas.json")) if os.path.exists("/verif/tools/first_round_ideas.json") else {}
+avoid=""
+if n!="1" and pid in ideas:
+    avoid=f"\nAn earlier attempt already used this idea, so do NOT reuse it or a close variant: {ideas[pid]}. Choose a substantially different idea — a different code site, or a different clause of the property (the statement has several), or a different kind of trigger.\n"
 print(f"""You are helping test a verification suite by producing a realistic, subtle regression in the Rust project metrics-rs/metrics.
 
 Your private working copy is the git worktree at {wt} (a checkout of the project; work ONLY there; never touch /repo or /verif; do not read anything under /verif). The sandbox is offline: always pass --offline to cargo (e.g. `cd {wt} && cargo test --offline -p metrics-util`). The toolchain is pinned by rust-toolchain.toml (1.74.0). Some source lines are `#[cfg(metrics_verif)]` hook calls — leave those lines alone and do not build with that cfg.
@@ -16,6 +21,7 @@ Statement: {p['statement']}
 It quantifies over: {p['quantifier']['text']}
 Code it is anchored in: {', '.join(p['anchors']['files'])}
 
+{avoid}
 Task: make ONE small source change (a few lines, in the library crates, not in tests) that a plausible refactoring or 'optimisation' could introduce, which violates the property above while
   (a) the whole workspace still compiles, and
   (b) the existing test suite still passes unchanged (`cargo test --offline -p <affected crate(s)>`, and make sure dependents still compile: `cargo build --offline --workspace`), and
